@@ -847,6 +847,11 @@ V("c22-wrapper-passes-string-for-vector", "C22", "R22.5", "dask_array/_frisky/di
   "        self._rust = _rust.Diag2DSimpleLayer(name, np.diag, {}, dep_name, int(nblocks))", "        self._rust = _rust.Diag2DSimpleLayer(name, np.diag, {}, dep_name, str(nblocks))", expect="Diag2DSimpleLayer")
 V("c22-rust-option-parameter-without-default", "C22", "R22.1", "crates/dask-array-python/src/squeeze.rs",
   "        input_ndim: usize,\n        axis_set: Vec<usize>,\n    ) -> Self {", "        input_ndim: usize,\n        axis_set: Vec<usize>,\n        region: Option<Vec<i64>>,\n    ) -> Self {", expect="SqueezeLayer")
+V("c22-twin-rust-formatting", "C22", "-", "crates/dask-array-python/src/from_array.rs", None, None, twin=True, edits=[
+  ("crates/dask-array-python/src/from_array.rs", "    #[new]\n    #[pyo3(signature = (name, array, getitem, dims, inline_array, extra_args=None))]\n    fn new(", "    /// Build the layer.  `fn new(` appears in this doc comment { on purpose }.\n    #[pyo3(\n        signature = (\n            name, array, getitem,\n            dims, inline_array,\n            extra_args = None,\n        )\n    )]\n    #[allow(clippy::too_many_arguments)]\n    #[new]\n    pub fn new("),
+])
+V("c22-twin-rust-generic-lifetime-constructor", "C22", "-", "crates/dask-array-python/src/squeeze.rs",
+  "    fn new(\n        name: String,\n        func: Py<PyAny>,", "    fn new<'py>(\n        _py: Python<'py>,\n        name: String,\n        func: Py<PyAny>,", twin=True)
 V("c22-expression-passes-extra-argument-to-wrapper", "C22", "R22.4", "dask_array/io/_from_array.py",
   "            return FromArrayLayer(self._name, self.array, self.chunks, self.operand(\"_region\"))", "            return FromArrayLayer(self._name, self.array, self.chunks, self.operand(\"_region\"), self.operand(\"lock\"))", expect="FromArrayLayer")
 V("c22-wrapper-init-gains-required-parameter", "C22", "R22.4", "dask_array/_frisky/creation.py",
